@@ -17,20 +17,39 @@
      - evaluated instances: the one-dataset history is the image of Props/C01File.v; on a nested history with refused calls and
        hard links hdf5.Open's loader program (p_open) run on tree_image returns exactly the tree built.
 
-   NOT proved (the theorem  forall h, run0 (tree_image h) (p_open ..) = Ok (spec tree of h)  is not stated):
-     (1) the B-tree node stage and the object header stages for symbolic addresses (the generalisations of
-         Proofs/FileImageGroup.v btree_stage and Proofs/FileImageOpen.v object_stage / modern_stage; the header decoder for any
-         placed version 2 header is C01_ohdr_program_roundtrip), and the loop of loadChildren over n entries with the loader state
-         (visited B-trees, objects being loaded, load counter against fileSize/8+1024);
-     (2) the invariant "the image is the concatenation of blocks that encode the abstract state" over whole histories: the
-         append steps and the bookkeeping that the parent's blocks found through fw.groups are the ones placed (C03_file_link_...
-         is the in-place half of each step);
-     (3) the induction over the loader's fuel / tree depth and the composition with Props/C03.v C03_refines through the map
-         call index -> file address. *)
+   Second round (all closed, universal):
+     - READER, depth 1 (C03_file_open_depth1): for EVERY closed file (superblock + anything) in which a root group's four blocks
+       (heap, node with n <= 32 entries, B-tree node, header) are placed and every entry's object address holds a placed
+       version 2 header of a dataset (any header without attribute messages that determineObjectType calls a dataset) or of an
+       empty symbol-table group with its own placed blocks, hdf5.Open's program returns the root with exactly those n children
+       in entry order, names from the heap, kinds from the headers.  Its parts hold at symbolic addresses and are exported
+       (C03_file_superblock_any, C03_file_with_header_placed, C03_file_group_btree_placed, C03_file_children_placed,
+       C03_file_modern_placed, C03_file_object_child, C03_file_children_loop_depth1 with the loader state threaded: visited
+       B-trees, loading set, load counter against the budget).
+     - WRITER, whole steps (C03_file_placed_init, C03_file_alloc_group_appends, C03_file_alloc_dataset_appends,
+       C03_file_append_keeps_placed, C03_file_link_on_image, C03_file_step_group_preserves_placed,
+       C03_file_step_dataset_preserves_placed): Placed st = the file is the superblock followed by the items created so far
+       (group = heap | node | B-tree | header block, dataset = data | header block), every group's segment and node well-formed,
+       the root and every fw.groups entry name a group item.  CreateForWrite establishes it; CreateGroup and CreateDataset
+       preserve it in every branch, refused calls included.
+
+   NOT proved:
+     (1) Placed for CreateHardLink's successful branch: it needs one more clause in the invariant (every entry's object address is
+         the header address of an item, so that the header rewrite lands inside that item's header block) and the pure header
+         decoder's round trip on it; the refused branches return the state unchanged by definition.
+     (2) C03_file_tree_depth1 / the all-histories theorem: Placed is the LAYOUT invariant; the reader theorem needs in addition
+         the CONTENT of each item (header block = a dataset / group header that C03_file_open_depth1 accepts, entry i of the
+         root node = (offset of name i, header address of item i), NoDup of the child groups' B-trees) and the agreement of the
+         root group's (segment, node) with Model/GroupNS.v's state (C03_file_link_commutes gives exactly that per step), then
+         Props/C03.v C03_refines through the map call index -> header address.
+     (3) depth > 1: C03_file_children_loop_depth1 generalised from "child = dataset or EMPTY group" to "child = any tree", by
+         induction on the loader fuel with the invariants vbt/loading/cnt of C03_file_object_child as induction hypothesis. *)
 From HV Require Import Base.Prelude Base.Outcome Base.Bytes Model.IOProg Model.IOProgReader Model.IOProgOpen.
 From HV Require Import Model.RobustAlloc Model.RobustGroup Model.CodecType Model.GroupWire Model.FileImage Model.TreeImage.
 From HV Require Import Proofs.GroupWireHeap Proofs.GroupWireSnod Proofs.FileImage Proofs.FileImageData.
-From HV Require Import Proofs.TreeImageLink Proofs.TreeImageRead Proofs.TreeImageExamples.
+From HV Require Import Proofs.FileImageOhdr Model.CodecOhdr Model.CodecSuper.
+From HV Require Import Proofs.TreeImageLink Proofs.TreeImageRead Proofs.TreeImageExamples Proofs.TreeImageHdr Proofs.TreeImageOpen
+  Proofs.TreeImagePlaced Proofs.TreeImageStep.
 From HV Require Model.GroupNS.
 
 (* once prepareLink has accepted the call, the model's linkToParent is the heap rewrite followed by the node rewrite *)
@@ -116,3 +135,114 @@ Theorem C03_file_link_witness :
   link_to_parent t_init [] [100] 2195 = link_both init_file 48 336 [100] 2195.
 Proof. exact link_example. Qed.
 Print Assumptions C03_file_link_witness.
+
+(* ================================================================== second round: reader at symbolic addresses *)
+Theorem C03_file_superblock_any : forall e (R : list N), e < 18446744073709551616 -> 80 <= blen R ->
+  run0 (enc_superblock (sb_eof e) ++ R) p_superblock = Ok SB'.
+Proof. exact superblock_any. Qed.
+Print Assumptions C03_file_superblock_any.
+
+Theorem C03_file_with_header_placed : forall f hfuel A a x (k : ohdr' -> prog A), HdrAt f hfuel a x -> no_attr (oh_msgs x) = true ->
+  run0 f (with_header SB' hfuel a k) = run0 f (k (proj_ohdr_v2 false x a)).
+Proof. exact with_header_placed. Qed.
+Print Assumptions C03_file_with_header_placed.
+
+Theorem C03_file_group_btree_placed : forall f ba sa s,
+  placed f ba (bt_block sa) -> sa < 9223372036854775808 -> sa <> 0 ->
+  placed f sa (snod_bytes s 32) -> snode_ok s = true -> (length (stn_entries s) <= 32)%nat ->
+  Forall (fun e => sy_cache e = 0) (stn_entries s) ->
+  run0 f (p_group_btree SB' ba) = Ok (map stentry_of (stn_entries s)).
+Proof. exact group_btree_placed. Qed.
+Print Assumptions C03_file_group_btree_placed.
+
+Theorem C03_file_children_placed : forall f hfuel rec a seg s st, GroupAt f hfuel a seg s -> mem (a + 1576) (vbt st) = false ->
+  run0 f (p_children true SB' rec (a + 1576) a st) =
+  run0 f (children_loop true SB' rec seg (map stentry_of (stn_entries s)) (with_vbt st (a + 1576))).
+Proof. exact children_placed. Qed.
+Print Assumptions C03_file_children_placed.
+
+Theorem C03_file_modern_placed : forall f hfuel rec a seg s st, GroupAt f hfuel a seg s -> mem (a + 1576) (vbt st) = false ->
+  run0 f (p_modern true SB' hfuel rec (a + 2120) st) =
+  match run0 f (children_loop true SB' rec seg (map stentry_of (stn_entries s)) (with_vbt st (a + 1576))) with
+  | Ok x => Ok (Grp [] (a + 2120) (fst x), snd x) | Err => Err | Panic => Panic end.
+Proof. exact modern_placed. Qed.
+Print Assumptions C03_file_modern_placed.
+
+(* loadObject on a child that is a dataset or an empty group, any loader state that admits it *)
+Theorem C03_file_object_child : forall f B hfuel n a nm c st, ChildAt f hfuel a c ->
+  mem a (loading st) = false -> lenN' (loading st) < 1024 -> cnt st + 1 <= B ->
+  Forall (fun b => mem b (vbt st) = false) (child_bt a c) ->
+  run0 f (p_object true SB' B hfuel (p_load true SB' B hfuel (S (S n))) a nm st) = Ok (child_node nm a c, child_st st a c).
+Proof. exact object_child. Qed.
+Print Assumptions C03_file_object_child.
+
+(* the loop of loadChildren over n entries, loader state threaded *)
+Theorem C03_file_children_loop_depth1 : forall f B hfuel n (seg : list N) es cs st,
+  Forall2 (fun e nc => heap_string seg (sy_name e) = Ok (fst nc) /\ ChildAt f hfuel (sy_obj e) (snd nc)) es cs ->
+  Forall (fun e => mem (sy_obj e) (loading st) = false) es -> lenN' (loading st) < 1024 ->
+  cnt st + N.of_nat (length es) <= B ->
+  NoDup (loop_bts es cs) -> Forall (fun b => mem b (vbt st) = false) (loop_bts es cs) ->
+  run0 f (children_loop true SB' (p_load true SB' B hfuel (S (S (S n)))) seg (map stentry_of es) st)
+  = Ok (loop_nodes es cs, loop_st st es cs).
+Proof. exact children_loop_depth1. Qed.
+Print Assumptions C03_file_children_loop_depth1.
+
+(* hdf5.Open on any closed file whose root group has n <= 32 children, each a dataset or an empty group *)
+Theorem C03_file_open_depth1 : forall e (R : list N) hfuel n seg s cs,
+  let f := enc_superblock (sb_eof e) ++ R in
+  e < 18446744073709551616 -> 80 <= blen R ->
+  GroupAt f hfuel 48 seg s ->
+  Forall2 (fun e nc => heap_string seg (sy_name e) = Ok (fst nc) /\ ChildAt f hfuel (sy_obj e) (snd nc)) (stn_entries s) cs ->
+  NoDup (1624 :: loop_bts (stn_entries s) cs) ->
+  run0 f (p_open true (blen f) (S (S (S (S (S n))))) hfuel) = Ok (Grp [47] 2168 (loop_nodes (stn_entries s) cs)).
+Proof. exact open_depth1. Qed.
+Print Assumptions C03_file_open_depth1.
+
+(* ================================================================== second round: the writer's whole steps *)
+Theorem C03_file_placed_init : Placed t_init.
+Proof. exact placed_init. Qed.
+Print Assumptions C03_file_placed_init.
+
+Theorem C03_file_alloc_group_appends : forall lay, Forall item_ok lay -> 48 + lsize lay + 3000 < LIM ->
+  let ha := 48 + lsize lay in
+  alloc_group (image lay) = (image (lay ++ [new_group_item ha]), ha, ha + 288, ha + 1576, ha + 2120).
+Proof. exact alloc_group_image. Qed.
+Print Assumptions C03_file_alloc_group_appends.
+
+Theorem C03_file_alloc_dataset_appends : forall lay code dims data, Forall item_ok lay ->
+  let da := 48 + lsize lay in
+  alloc_dataset (image lay) code dims data = (image (lay ++ [new_dset_item code dims data da]), da + blen data).
+Proof. exact alloc_dataset_image. Qed.
+Print Assumptions C03_file_alloc_dataset_appends.
+
+Theorem C03_file_append_keeps_placed : forall lay it a b, placed (image lay) a b -> placed (image (lay ++ [it])) a b.
+Proof. exact append_keeps_placed. Qed.
+Print Assumptions C03_file_append_keeps_placed.
+
+Theorem C03_file_item_placed : forall l1 it l2, Forall item_ok l1 ->
+  placed (image (l1 ++ it :: l2)) (48 + lsize l1) (item_bytes (48 + lsize l1) it).
+Proof. exact item_placed. Qed.
+Print Assumptions C03_file_item_placed.
+
+(* linkToParent's two rewrites on the image: one group item gets a new segment and node, everything else is the same list *)
+Theorem C03_file_link_on_image : forall l1 seg s hb l2 nm child f2,
+  Forall item_ok (l1 ++ IGroup seg s hb :: l2) -> 48 + lsize (l1 ++ IGroup seg s hb :: l2) < LIM -> child < 18446744073709551616 ->
+  link_both (image (l1 ++ IGroup seg s hb :: l2)) (48 + lsize l1) (48 + lsize l1 + 288) nm child = Ok f2 ->
+  exists seg' s1, item_ok (IGroup seg' s1 hb) /\ f2 = image (l1 ++ IGroup seg' s1 hb :: l2).
+Proof. exact link_image. Qed.
+Print Assumptions C03_file_link_on_image.
+
+Theorem C03_file_step_group_preserves_placed : forall st p, Placed st -> blen (t_file st) + 3000 < LIM ->
+  Placed (fst (t_step st (TGroup p))).
+Proof. exact step_group_preserves. Qed.
+Print Assumptions C03_file_step_group_preserves_placed.
+
+Theorem C03_file_step_dataset_preserves_placed : forall st p code dims data, Placed st ->
+  blen (fst (alloc_dataset (t_file st) code dims data)) < LIM -> Placed (fst (t_step st (TDataset p code dims data))).
+Proof. exact step_dataset_preserves. Qed.
+Print Assumptions C03_file_step_dataset_preserves_placed.
+
+Theorem C03_file_close_image : forall lay, Forall item_ok lay ->
+  t_close (image lay) = enc_superblock (sb_eof (48 + lsize lay)) ++ layout 48 lay.
+Proof. exact close_image. Qed.
+Print Assumptions C03_file_close_image.
